@@ -163,6 +163,9 @@ def reference_model(pm: ProgramModel, mb: ModelBuilder) -> AObj:
     mb.relation(root, [uni], 0, 1)
     mb.relation(uni, [uni2], 1, 1)
     uni._f["attributes"].append(mb.attribute("étiquette", "süß & señor", uni))
+    root._f["attributes"].append(mb.attribute("rating", 4, root))        # referred to as Shop.rating (the namespace is Shop too)
+    for nm_ in ("Usb", "USB", "Driver", "DRIVER"):                        # four features, two look-alike constraints below
+        mb.relation(root, [F(nm_)], 0, 1)
     mb.relation(pay, [card_f, cash, coin], 1, 3)         # or
     mb.relation(cat, [a, b, c], 1, 1)                    # alternative
     mb.relation(cat, [lbl], 1, 1)
@@ -208,6 +211,11 @@ def reference_model(pm: ProgramModel, mb: ModelBuilder) -> AObj:
         n(o("EQUALS"), n("Label"), n("'abc def'")),
         n(o("IMPLIES"), n("Crème brûlée"), n("Größe-µ")),
         n(o("EQUALS"), n("Label"), n("'naïve Ωmega'")),
+        n(o("GREATER"), n("Shop.rating"), n(3)),
+        n(o("IMPLIES"), n("Usb"), n("Driver")),
+        n(o("IMPLIES"), n("USB"), n("DRIVER")),
+        n(o("NOT_EQUALS"), n("Label"), n("'RW'")),
+        n(o("NOT_EQUALS"), n("Label"), n("'rw'")),
     ]
     return mb.model(root, [mb.constraint(f"Constraint {k}", x) for k, x in enumerate(cs)])
 
